@@ -150,6 +150,22 @@ class NpVec(T):
         self.n = n
 
 
+class NameTok(T):
+    """Symbolic white-space free word (an atom / residue name) of lo..hi characters (layout logic token)."""
+
+    kind = "NameTok"
+
+    def __init__(self, lo=1, hi=4):
+        self.lo = lo
+        self.hi = hi
+
+
+class TmpPath(T):
+    """A file path: symbolic string in the proof, a fresh temporary file natively."""
+
+    kind = "TmpPath"
+
+
 def Vec3():
     return ListOf(Real, 3)
 
@@ -294,7 +310,17 @@ def sqrt(x):
     return math.sqrt(x)
 
 
+def fmt(v, spec):
+    return format(v, spec)
+
+
+def is_whole_token(s):
+    return True
+
+
 NATIVE_HELPERS = {
+    "fmt": fmt,
+    "is_whole_token": is_whole_token,
     "sqrt": sqrt,
     "isint": isint,
     "implies": implies,
